@@ -131,13 +131,13 @@ PROPS["C13"] = dict(
 )
 
 PROPS["C15"] = dict(
-    units=[("kani", "headers"), ("kani", "pcapcodec"), ("verus", "pktcache"), ("verus", "chain")] + [("verus", "hdrser.%s" % k) for k in ("tcp", "udp", "eth", "vlan", "ipv4", "ipv6", "pkt")],
+    units=[("kani", "headers"), ("kani", "pcapcodec"), ("verus", "pktcache"), ("verus", "chain")] + [("verus", "hdrser.%s" % k) for k in ("tcp", "udp", "eth", "vlan", "ipv4", "ipv6", "pkt")] + [("verus", "objser")],
     explanation="Caching discipline (Verus, the 12 layer-getter arms of vm/pktprop.rs): a READ returns the cached inner object or parses the child from the parent's own "
                 "buffer at the parent's payload offset, and caches only such a child (never an error object) - the shape the serialisers need. Unbounded half (Verus, every buffer length and offset): each layer's from_bytes sets offset = off + header length <= len, and "
                 "From<&Layer> for Vec<u8> returns header bytes ++ rawdata[offset..] when no inner layer is cached (header bytes ++ the inner object's bytes otherwise). "
                 "Header half (Kani, every header content): serialising the parsed header gives back the captured header bytes (bounded_checks: with a short payload attached). "
                 "Induction (Verus, chain unit, a lemma over those contracts for every chain length): a layer whose header bytes are raw[start..poff] and whose cached inner layer, if any, was parsed from the same buffer at poff and is itself read-only serialises to raw[start..]; with the record-header codec identity the record written is the record captured.",
-    not_covered=["the one-line From<&Object> for Vec<u8> dispatch that hands each cached layer to its own serialiser, and that the four hypotheses of the chain lemma are exactly the ensures clauses of the units named next to them (stated in units/chain/prelude.rs, matched by reading)",
+    not_covered=["that `.into()` in From<&Object> for Vec<u8> resolves to the serialiser of the binding's own type (rustc's trait resolution, rule R10; the dispatch itself is verified in the objser unit), and that the four hypotheses of the chain lemma are exactly the ensures clauses of the units named next to them (stated in units/chain/prelude.rs, matched by reading)",
                  ],
     assumptions=[],
     trusted=COMMON_TRUST,
